@@ -171,6 +171,39 @@ struct Engine {
                 bases[base] = keep;
             }
         }
+        // an interrupt request pending when the repeat starts: the N+1 executions belong together (no entry between rep and the repeated
+        // instruction or between two executions), the handler (a bare reti at the vector) runs once afterwards and the registers are those
+        // of the unrolled code
+        if (bases[base].pc < 0x10000)
+            for (int line = 0; line < 3; ++line)
+                for (u32 n : {1u, 3u}) {
+                    VState s = bases[base];
+                    u32 vec = 0x0006 + 8 * line;
+                    s.pc = vec - 2;
+                    s.ie = 1;
+                    for (int i = 0; i < 3; ++i)
+                        s.im[i] = i == line, s.ip[i] = i == line, s.ic[i] = 0;
+                    s.imv = 0, s.ipv = 0;
+                    std::vector<u16> loop = {(u16)(0x0C00 | n), 0x67D0, 0x45C0};
+                    std::vector<u16> flat(n + 1, 0x67D0);
+                    flat.push_back(0x0000);
+                    VState f = s;
+                    f.ip[line] = 0;
+                    Out a, b;
+                    if (!Exec(s, loop, 1 + (int)n + 1 + 1, a)) {
+                        Report(Fmt("rep-irq:line=%d:outcome=%s", line, OutcomeName(a.r.outcome)), std::string("rep with a pending request ends with ") + OutcomeName(a.r.outcome) + " " + a.r.assert_expr, loop, (int)n + 3, loop, 0, base);
+                        continue;
+                    }
+                    if (!Exec(f, flat, (int)n + 1, b))
+                        continue;
+                    std::string d = DiffNonLoop(a.s, b.s);
+                    if (d.empty() && (a.s.rep || a.s.repc))
+                        d = "rep/repc";
+                    if (d.empty() && a.s.pc != vec)
+                        d = "pc";
+                    if (!d.empty())
+                        Report(Fmt("rep-irq:line=%d:%s", line, d.c_str()), Fmt("rep #%u ; inc a0 with a request pending on int%d (handler: reti): %s differs from the unrolled code", n, line, d.c_str()), loop, (int)n + 3, loop, 0, base);
+                }
         // the counter the program can see: mov repc,[arrn1+ars0] stores repc at [r4]+ on every execution
         for (u32 n : {0u, 1u, 2u, 5u, 8u}) {
             std::vector<u16> loop = {(u16)(0x0C00 | n), 0xD7D2, 0x0000};
@@ -474,6 +507,25 @@ struct Engine {
                 }
                 if (!bad.empty())
                     Report(Fmt("frame:depth%d:%s:pages%d", depth, via % 2 ? "arrn" : "sp", pages), "bkrepsto ; bkreprst does not round-trip: " + bad, w, 2, w, 0, base);
+                // the pair used as prologue / epilogue: the loop counter is overwritten between the store and the restore (what a subroutine's
+                // own loop does); the restore brings the saved frame back, also when it was saved outside any loop
+                if (depth <= 1) {
+                    std::vector<u16> w2 = {w[0], 0x5E1E, 0xBEEF, w[1], 0x0000};
+                    Out o2;
+                    if (!Exec(s, w2, 3, o2)) {
+                        Report(Fmt("frame-clobber:depth%d:outcome", depth), std::string("store;mov ##imm,lc;restore ends with ") + OutcomeName(o2.r.outcome) + " " + o2.r.assert_expr, w2, 3, w2, 0, base);
+                        continue;
+                    }
+                    std::string bad2;
+                    if (o2.s.lp != s.lp || o2.s.bcn != s.bcn)
+                        bad2 = Fmt("lp/bcn = %u/%u, expected %u/%u", o2.s.lp, o2.s.bcn, s.lp, s.bcn);
+                    else if (o2.s.bk[0].start != s.bk[0].start || o2.s.bk[0].end != s.bk[0].end || o2.s.bk[0].lc != s.bk[0].lc)
+                        bad2 = Fmt("frame 0 = {%05X,%05X,%04X}, expected {%05X,%05X,%04X}", o2.s.bk[0].start, o2.s.bk[0].end, o2.s.bk[0].lc, s.bk[0].start, s.bk[0].end, s.bk[0].lc);
+                    else if (via % 2 == 0 ? o2.s.sp != s.sp : o2.s.r[2] != s.r[2])
+                        bad2 = "pointer register not restored";
+                    if (!bad2.empty())
+                        Report(Fmt("frame-clobber:depth%d:%s:pages%d", depth, via % 2 ? "arrn" : "sp", pages), "bkrepsto ; mov ##0xBEEF,lc ; bkreprst does not bring the saved frame back: " + bad2, w2, 3, w2, 0, base);
+                }
             }
     }
 };
